@@ -384,6 +384,41 @@ def clause_index_leaves_with_record(prog, rep, rule):
     rep.floor(rule, "removals from the primary group map (memory backend)", nrm, 1)
 
 
+def clause_filter_group_only(prog, rep, rule):
+    """every entry-selecting closure of the memory backend's group snapshot / restore selects by the group id alone (shared with C10:
+    SQLite selects `WHERE group_id = ?` on every table, checked by sql-scope)"""
+    M = {n: method(prog, "MdkMemoryStorage", n) for n in ("create_group_snapshot", "rollback_group_to_snapshot")}
+    if not all(M.values()):
+        rep.floor(rule, "memory snapshot / rollback methods", 0, 2)
+        return
+    rb_ext = [prog.fns[p] for p in prog.extent(M["rollback_group_to_snapshot"]) if p in prog.fns and prog.fns[p].crate == "mdk_memory_storage"]
+    cr_ext = [prog.fns[p] for p in prog.extent(M["create_group_snapshot"]) if p in prog.fns and prog.fns[p].crate == "mdk_memory_storage"]
+    # ... and against nothing else: a filter that also narrows on another key component (an epoch bound, a data type) leaves part of the
+    # group's entries out of the snapshot, or alive across the restore, so the restored state is not the snapshotted one
+    nonly = 0
+    for g in rb_ext + cr_ext:
+        if not g.is_closure() or g.ret != "bool":
+            continue
+        nonly += 1
+        extra = []
+        for bb, st in g.stmts():
+            if st.get("k") == "binop" and st.get("op") in ("Gt", "Lt", "Ge", "Le", "Eq", "Ne", "Cmp"):
+                extra.append("%s @%s:%s" % (st["op"], g.file, st.get("line")))
+        ncmp = 0
+        for c in g.live_calls():
+            if c.name in ("eq", "ne"):
+                ncmp += 1
+            elif c.name in ("lt", "le", "gt", "ge", "cmp", "partial_cmp", "contains", "starts_with", "ends_with", "is_some", "is_none", "matches"):
+                extra.append("%s @%s" % (c.name, c.loc()))
+        if ncmp > 1:
+            extra.append("%d equality tests" % ncmp)
+        rep.check(not extra, rule, "filter-by-group-only/%s" % last_seg(g.parent) + "#%d" % nonly,
+                  "filter selects entries by the group id alone",
+                  "a filter in snapshot/restore selects by more than the group id (%s): entries of the group outside that narrower set are "
+                  "not captured / not cleared, so rollback does not restore the snapshotted state (and the backends disagree)" % "; ".join(extra), g.loc())
+    rep.floor(rule, "group-only filters in snapshot/restore", nonly, 6)
+
+
 def clause_memory(prog, rep):
     inner = prog.adt("MdkMemoryStorageInner")
     snap = prog.adt("GroupScopedSnapshot")
@@ -467,6 +502,7 @@ def clause_memory(prog, rep):
                   "filter compares the entry's key with the captured group id",
                   "a retain/filter closure in snapshot/restore does not compare against the group id: other groups' entries are affected", g.loc())
     rep.floor("memory-scope", "group filters in snapshot/restore", nclos, 6)
+    clause_filter_group_only(prog, rep, "memory-scope")
     # key representation: the OpenMLS maps are keyed by the MlsCodec-serialised group id (that is what the writers in mls_storage use),
     # the MDK caches by GroupId itself — a filter comparing a serialised key with the raw id (or vice versa) silently matches nothing
     nrep = 0
